@@ -801,6 +801,22 @@ def layout_differential(tc, direction, signed, n_bits, n_frac):
                 flats.append(np.array(cs, dtype=_np_dtype(tc, sg, nb)))
         if direction == "f2x":
             flats = [flat]
+            # integer (and float32) input arrays are legitimate arguments of
+            # the float-to-fix converter too: NumPy promotes them
+            lo, hi = _range(signed, n_bits)
+            span = max(abs(lo), abs(hi)) / 2.0 ** n_frac
+            for dt in ("int8", "uint8", "int16", "int32", "int64",
+                       "float32"):
+                info = np.iinfo(dt) if dt != "float32" else None
+                cand = [0, 1, 2, 3, -1, -2, 5, 7, 100, 127, -128, 255,
+                        1000, 32767, -32768, 65536, 70000, 2 ** 31 - 1,
+                        int(span), int(span) + 1, -int(span) - 1]
+                vals = [c for c in cand if info is None or
+                        info.min <= c <= info.max]
+                vals = [c for c in vals if math.isfinite(
+                    float(c) * 2.0 ** n_frac)]
+                if len(vals) >= 8:
+                    flats.append(np.array(vals, dtype=dt))
         with np.errstate(all="ignore"):
             for flat in flats:
                 for name, arr in _layouts(np, flat):
